@@ -237,6 +237,8 @@ def classify(nodes, flavor):
                 cl.add(f"cond_under_{parent}")
             if parent == "cond":
                 cl.add("cond_under_cond")
+            if parent in ("any", "xor", "amo") and all(only_conds_below(c) for c in nd[2]):
+                cl.add("nested_conditional_in_choice_group")
         elif k != "leaf":
             cl.add(k)
             if k in ("any", "xor", "amo") and only_conds_below(nd):
@@ -378,6 +380,10 @@ def _node(rnd, cfg, depth, parent, budget):
     if depth > 0 and budget.n > 1:
         # weights: conditionals and choice groups are what the property is about
         kinds = ["leaf", "leaf", "cond", "cond", "cond"]
+        if depth > 1:
+            # conditional whose payload consists of conditionals only: met outside / unmet inside
+            # leaves a met conditional with nothing in it
+            kinds.append("condchain")
         if flavor not in NO_GROUPS:
             kinds += ["all", "any", "any", "condgroup"]
         if flavor == "required_use":
@@ -403,6 +409,15 @@ def _node(rnd, cfg, depth, parent, budget):
             sub = [_node(rnd, cfg, depth - 2, "cond", budget) for _ in range(rnd.randint(1, 2))]
             ch.append(["cond", ("!" if neg else "") + flag, sub])
         return [gk, ch]
+    if k == "condchain":
+        flag = rnd.choice(cfg["flags"])
+        neg = rnd.randrange(3) == 0
+        ch = []
+        for _ in range(rnd.randint(1, 2)):
+            f2 = rnd.choice(cfg["flags"])
+            sub = [_node(rnd, cfg, depth - 2, "cond", budget) for _ in range(rnd.randint(1, 2))]
+            ch.append(["cond", ("!" if rnd.randrange(3) == 0 else "") + f2, sub])
+        return ["cond", ("!" if neg else "") + flag, ch]
     if k == "cond":
         flag = rnd.choice(cfg["flags"])
         neg = rnd.randrange(3) == 0
